@@ -43,6 +43,8 @@ def angle_from(op):
     base = ANGLE_BASE[op["a"] % len(ANGLE_BASE)] + (op["frac"] % 1000) / 1000.0 * 0.9
     half = op["half"] % 2          # add 180 -> quadrants III/IV
     turns = (op["turns"] % 5) - 2  # -2..2 whole turns
+    if op.get("big"):
+        turns *= 45                    # up to +-90 turns: more than 360 radians
     sign = -1.0 if op["neg"] % 2 else 1.0
     return sign * (base + 180.0 * half) + 360.0 * turns
 
@@ -75,7 +77,8 @@ class RotationRng(Machine):
                        "axis_angle_repeated", "axis_angle_after_reseed", "rng_draw_logged",
                        "negative_angle", "beyond_one_turn", "radians", "tcoords", "returned_transform_mutated",
                        "about_centre_scale", "about_centre_rotate", "about_centre_shear", "about_centre_transform",
-                       "scale_factory", "scale_factory_zero_refused", "passed_array_mutated")
+                       "scale_factory", "scale_factory_zero_refused", "passed_array_mutated",
+                       "radians_beyond_360", "quat_from_existing_rotation")
 
     @classmethod
     def swarm(cls, rng, tier):
@@ -97,10 +100,10 @@ class RotationRng(Machine):
         if kind in ("ccw2d", "ccw3d"):
             op.update(a=rng.randrange(12), frac=rng.randrange(1000), half=rng.randrange(2),
                       turns=rng.randrange(5), neg=rng.randrange(2), deg=rng.randrange(2),
-                      axis=rng.randrange(3))
+                      axis=rng.randrange(3), big=int(rng.random() < 0.25))
         elif kind in ("quat", "general3d"):
             op.update(data=rng.getrandbits(32), a=rng.randrange(12), frac=rng.randrange(1000),
-                      half=rng.randrange(2), neg=rng.randrange(2))
+                      half=rng.randrange(2), neg=rng.randrange(2), via=rng.randrange(3))
         elif kind == "axis_angle":
             op.update(i=rng.randrange(64), times=rng.randrange(1, 4))
         elif kind == "burn":
@@ -184,7 +187,24 @@ class RotationRng(Machine):
                 if op["neg"] % 2:
                     q[1:] *= -1.0
                     ref = ref.T
-                r = Rotation.init_3d_from_quaternion(q.copy())
+                via = op.get("via", 0) % 3
+                olds = [x for x in self.pool if x[2][0] == 3]
+                if via and olds:
+                    # the optimiser pattern: read the parameters of an existing rotation, then build the next
+                    # one from it with new parameters
+                    base = olds[op["a"] % len(olds)][0]
+                    p0 = base.as_vector().copy()
+                    hb = base.h_matrix.copy()
+                    if via == 1:
+                        r = base.from_vector(q.copy())
+                    else:
+                        r = base.copy()
+                        r.from_vector_inplace(q.copy())
+                    ctx.require(np.array_equal(base.h_matrix, hb) and np.allclose(base.as_vector(), p0), "quaternion_roundtrip",
+                                "from_vector_changed_the_rotation_it_was_called_on")
+                    ctx.probe("quat_from_existing_rotation")
+                else:
+                    r = Rotation.init_3d_from_quaternion(q.copy())
                 ctx.probe("quat")
                 q2 = r.as_vector()
                 e = float(np.abs(q2 - q).max())
@@ -388,6 +408,8 @@ class RotationRng(Machine):
             self.ctx.probe("negative_angle")
         if abs(deg) > 360:
             self.ctx.probe("beyond_one_turn")
+        if abs(math.radians(deg)) > 360 and not in_deg:
+            self.ctx.probe("radians_beyond_360")
         if not in_deg:
             self.ctx.probe("radians")
 
